@@ -1293,8 +1293,8 @@ impl SvgElement {
             self.attrs.insert_first("width", w);
             self.attrs.insert_first("height", h);
         }
-        if let ("ellipse", Some(rxy)) = (self.name.as_str(), self.attrs.pop("rxy")) {
-            // Split value into rx and ry
+        if let Some(rxy) = self.attrs.pop("rxy") {
+            // Split value into rx and ry (an ellipse's radii, a rect's corner radii)
             let (rx, ry) = Self::split_compound_attr(&rxy);
             self.attrs.insert_first("rx", rx);
             self.attrs.insert_first("ry", ry);
